@@ -1155,7 +1155,7 @@ fn oracle_top(top: &Top, info: &TopInfo, w: usize, t: &str) {
         Ok(Ok(t2)) => {
             if info.parser_form && !t.contains("//") && t2 != t { oracle_fail(info.known.unwrap_or("c08-idempotence"), "printing the re-parsed script gives a different text", &input, &t2); }
         },
-        Ok(Err(m)) => oracle_fail("c08-print-fail", &m, &input, t),
+        Ok(Err(m)) => oracle_fail(print_fail_class(&m), &m, &input, t),
         Err(why) => oracle_fail(info.known.unwrap_or(match why.as_str() { "different-ast" => "c08-roundtrip:different-ast", "parse-error" => "c08-roundtrip:parse-error", _ => "c08-roundtrip:parse-panic" }),
                                 &format!("the printed {} does not read back: {}", info.what, why), &input, t),
     }
